@@ -612,8 +612,13 @@ func (o *rpcObserver) observe(label string) {
 			if l, ok := v.Interface().(*api.LedgerApi); ok {
 				ledgerMomentumTruth(o.ch, l, w.who, cat, o.fail)
 				c.Hit("stateless-ledger-truth")
-				// (c) abandoned branches are unknown
+				// (c) abandoned branches are unknown (a contract block of an abandoned branch is generated again, with the same
+				// hash, when the new branch confirms the same call: what the store of the frontier holds now decides)
+				st := o.ch.GetFrontierMomentumStore()
 				for h, ht := range o.abMom {
+					if ref, _ := st.GetMomentumByHash(h); ref != nil {
+						continue
+					}
 					if m, err := l.GetMomentumByHash(h); err == nil && m != nil && m.Momentum != nil {
 						o.fail("C18: %s ledger.getMomentumByHash(%s) still answers the momentum of height %d of a branch the chain has left", w.who, h8(h), ht)
 						break
@@ -621,6 +626,10 @@ func (o *rpcObserver) observe(label string) {
 					c.Hit("stateless-abandoned-momentum-unknown")
 				}
 				for h, s := range o.abBlock {
+					if ref, _ := st.GetAccountBlockByHash(h); ref != nil {
+						c.Hit("stateless-abandoned-block-confirmed-again")
+						continue
+					}
 					if b, err := l.GetAccountBlockByHash(h); err == nil && b != nil {
 						o.fail("C18: %s ledger.getAccountBlockByHash(%s) still answers block %s that only an abandoned branch confirmed", w.who, h8(h), s)
 						break
@@ -811,5 +820,3 @@ func rpcStatelessFollower(c *Ctx, id int) {
 	}
 	c.Hit("stateless-follower-history")
 }
-
-
